@@ -318,10 +318,74 @@ def law_sectors(ch):
     ch.label(f"{s}/ndim={ndim}/{kind}")
 
 
+# the same labels under different symmetries, one after another ------------
+
+CROSS = [
+    (("Z2", "Z4", "U1"), [0, 1], [0, 1]),
+    (("U1", "Z4", "Z2"), [0, 1], [0, 1]),
+    (("Z2Z2", "U1U1"), [(0, 0), (0, 1), (1, 0)], [(0, 0), (0, 1), (1, 1)]),
+    (("U1U1", "Z2Z2"), [(0, 0), (0, 1), (1, 0)], [(0, 0), (0, 1), (1, 1)]),
+]
+
+
+def cross_cases(tier):
+    for k, (syms, pool, charges) in enumerate(CROSS):
+        for ndim in (0, 1, 2, 3):
+            for duals in itertools.product((False, True), repeat=ndim):
+                yield {"group": k, "ndim": ndim, "duals": list(duals)}
+
+
+def law_cross_symmetry(ch):
+    """identical charge labels, directions and total charge enumerated under
+    one symmetry after another with the generic classes (no result may leak
+    from one symmetry to the next)"""
+    import symmray as sr
+
+    case = ch.draw(None, "case")
+    syms, pool, charges = CROSS[case["group"]]
+    ndim, duals = case["ndim"], case["duals"]
+    subsets = _subsets(pool)
+    n = 0
+    for chargesets in itertools.product(subsets, repeat=ndim):
+        for charge in charges:
+            for ferm in (False, True):
+                for s in syms:
+                    if not (G.valid(s, charge) and all(
+                            G.valid(s, c) for cs in chargesets for c in cs)):
+                        continue
+                    if ferm and s == "Z4":
+                        continue
+                    n += 1
+                    indices = tuple(
+                        sr.BlockIndex({c: 1 for c in cs}, dual=d)
+                        for cs, d in zip(chargesets, duals))
+                    if ferm:
+                        x = sr.FermionicArray(indices=indices, charge=charge,
+                                              symmetry=s, oddpos=1)
+                    else:
+                        x = sr.AbelianArray(indices=indices, charge=charge,
+                                            symmetry=s)
+                    want = G.valid_sectors(s, chargesets, duals, charge)
+                    got = must(lambda: list(x.gen_valid_sectors()),
+                               what="gen_valid_sectors")
+                    require(
+                        sorted(got) == sorted(want) and len(got) == len(want),
+                        "sectors-cross-symmetry",
+                        lambda: f"{s} (after {syms}) charges={chargesets} "
+                                f"duals={duals} charge={charge!r}: {got} vs "
+                                f"{want}")
+    ch.count("inner", n)
+    ch.mark_nontrivial(ndim >= 1 and any(duals))
+    ch.label(f"cross/{'-'.join(syms)}/ndim={ndim}")
+
+
 LAWS = [
     Law("axioms", law_axioms, kind="enum", cases=axiom_cases,
         doc="group axioms, inverse, parity homomorphism: exhaustive"),
     Law("sectors", law_sectors, kind="enum", cases=sector_cases,
         doc="gen_valid_sectors / is_valid_sector / fill constructors == "
             "brute-force enumeration: exhaustive over small structures"),
+    Law("cross_symmetry", law_cross_symmetry, kind="enum", cases=cross_cases,
+        doc="the same labels / directions / charge enumerated under several "
+            "symmetries in turn through the generic classes"),
 ]
